@@ -172,6 +172,9 @@ Definition set_saved (s : state) b := mkState (data s) (extents s) (pdone s) (pr
 Definition set_file (s : state) rp p rb := mkState (data s) (extents s) (pdone s) (prefetching s) (saved s) rp p rb (unsent s) (pending s) (inflight s) (nextnum s).
 Definition set_inflight (s : state) i := mkState (data s) (extents s) (pdone s) (prefetching s) (saved s) (realpos s) (pos s) (rbuffer s) (unsent s) (pending s) i (nextnum s).
 
+(* sftp._async_request takes the next request number (also for synchronous requests) *)
+Definition bump (s : state) := mkState (data s) (extents s) (pdone s) (prefetching s) (saved s) (realpos s) (pos s) (rbuffer s) (unsent s) (pending s) (inflight s) (nextnum s + 1).
+
 Fixpoint remove_nth {A} (i : nat) (l : list A) : list A :=
   match l, i with
   | [], _ => []
@@ -299,7 +302,7 @@ Definition sread (file : list Z) (maxreq : Z) (o : oracle) (s : state) (size0 : 
   | RdNone =>
       (* sftp._request(CMD_READ, handle, realpos, size): _read_response(num) dispatches the
          asynchronous responses that arrive before its own *)
-      let s2 := run_env file (o_sync o) s1 in
+      let s2 := run_env file (o_sync o) (bump s1) in
       match server_read file (realpos s2) size (o_k o) (o_fail o) with
       | RData d => (s2, RdData d)
       | REof => (s2, RdEof)          (* _convert_status raises EOFError *)
@@ -473,6 +476,16 @@ Definition flush (s : state) : state := flush_threads (length (unsent s)) s.
 Definition enc_state (s : state) : list Z :=
   [b2z (prefetching s); realpos s; pos s; zlen (rbuffer s)] ++ enc_client (data s) (extents s) (pdone s) (saved s).
 
+Definition is_data (o : outcome) : bool := match o with OData _ => true | _ => false end.
+
+(* outcomes up to and including the first one that is not data (the Python call raises there) *)
+Fixpoint enc_until (outs : list outcome) : list Z :=
+  match outs with
+  | [] => []
+  | o :: r => if is_data o then enc_outcome o ++ enc_until r else enc_outcome o
+  end.
+
+(* the session ends at the first call that raises or blocks (-8); -9 = completed, final state follows *)
 Fixpoint run_ops (file : list Z) (maxreq bufsize : Z) (ops : list op) (s : state) : list Z :=
   match ops with
   | [] => -9 :: enc_state s
@@ -480,14 +493,14 @@ Fixpoint run_ops (file : list Z) (maxreq bufsize : Z) (ops : list op) (s : state
   | OpSeek o :: r => run_ops file maxreq bufsize r (seek s o)
   | OpRead n orcs :: r =>
       let '(s1, out) := bf_read file maxreq bufsize (mk_oracles orcs) s n in
-      -1 :: enc_outcome out ++ run_ops file maxreq bufsize r s1
+      -1 :: enc_outcome out ++ (if is_data out then run_ops file maxreq bufsize r s1 else [-8])
   | OpReadv chunks orcss :: r =>
       match readv_plan maxreq (data s) (extents s) chunks with
       | None => [99]
       | Some rc =>
           let '(s1, outs) := readv_reads file maxreq bufsize (map mk_oracles orcss)
                                          (flush (start_prefetch s rc 0)) chunks in
-          -2 :: flat_map enc_outcome outs ++ run_ops file maxreq bufsize r s1
+          -2 :: enc_until outs ++ (if forallb is_data outs then run_ops file maxreq bufsize r s1 else [-8])
       end
   end.
 
